@@ -451,4 +451,21 @@ CHECKS = {
         "components": {"real": REAL, "stubs": STUBS},
         "assumptions": ["single-node front-end (the cluster and sentinel dedicated clients wrap the same wire)", "a session that leaves MULTI open is not part of the property and is not generated"],
     },
+    "C29": {
+        "level": "fault_enumeration",
+        "rule": ("plans: 1-3 tasks issuing DoStream / DoMultiStream(2-4) of simple, bulk, integer, double, verbatim, streamed-string, nil and error replies with payloads of "
+                 "0 B..200 kB through read buffers of 32 B..default, (almost) every delivery cut; a fifth of the calls use an io.Writer that fails after 1..5000 bytes; random "
+                 "part: EOF mid-reply, reset, write error placed inside in-flight replies; enumerated part: EOF-mid-reply / reset at every scheduler step 0..255 of single-task "
+                 "base schedules with a seeded byte offset; oracle: each WriteTo consumes exactly one reply, the bytes written are exactly the payload (a prefix of it when the "
+                 "writer or the connection fails), nil and error replies surface as errors, a WriteTo after the end consumes nothing, in-package pool accounting is back to "
+                 "size == idle with no connection stored twice, and after a reply that could not be consumed completely the connection is closed and never carries another "
+                 "command; non-trivial = at least one stream call returned; distinct = distinct event-log hash"),
+        "parts": [
+            {"module": "rueidis", "scenario": "stream", "quick": 6000, "thorough": 400000},
+            {"module": "rueidis", "scenario": "stream", "variant": "enum", "quick": 2048, "thorough": 65536},
+        ],
+        "expected_probes": ["writer-failed-midway", "partial-consumption", "reply-split-across-reads"],
+        "components": {"real": REAL, "stubs": STUBS},
+        "assumptions": ["a failing io.Writer alone does not count as 'could not be consumed completely': the rest of that reply is discarded and the connection stays usable"],
+    },
 }
